@@ -83,6 +83,9 @@ def run(tier):
     from . import c08
     for ty in TYPES:
         c08.check_type(chk, F, ty, thorough=False)
+    # the Python classes expose the same functions: their sph_j* methods forward to the Rust item of the same name
+    from . import c17
+    c17.python_wrappers(chk, {"sph_j0", "sph_j1", "sph_j2"})
     chk.floor("sph bodies", chk.analysed.get("sph bodies", 0), 30)
     return chk.finish()
 
